@@ -9,8 +9,9 @@ TRUSTED_BASE = [
     "model coq/Model/Url.v (raw_parts, raw_name, raw_suffix(es), _make_child, with_name, with_suffix, parent) validated by correspondence",
     "extraction (ExtrOcamlBasic only), ocaml/driver*.ml, harness",
 ]
-ASSUMPTIONS = ["source-to-model tie is differential testing; name/parent of u / s, joinpath associativity and with_name's parent are checked "
-               "by the extracted predicate c13_pred on the implementation, not proved"]
+ASSUMPTIONS = ["source-to-model tie is differential testing; name/parent of u / s are proved for bases whose path is empty or rooted under an "
+               "authority and that hold no dot segment when s has a dot (true of every URL built in auto-encoding mode); joinpath "
+               "associativity and with_name's parent are checked by the extracted predicate c13_pred on the implementation, not proved"]
 RULE = ("26 base shapes (with/without scheme, authority, root, trailing slash, escapes, dots in names) x 21 segment texts: static clauses "
         "on every URL; u / s vs joinpath(s) + name + parent; joinpath(a, b) vs chained vs u / 'a/b' for all segment pairs; "
         "with_name; with_suffix over 8 suffixes; plus random URLs; distinct = distinct request")
